@@ -82,6 +82,12 @@ def check_diagram(case, ctx):
                              products=[sp[i] for i, _ in r['prod']], products_stoich=[c_ for _, c_ in r['prod']]))
     norm = None if case['norm'] is None else np.array(case['norm'])      # (an integer list gives an integer array)
     pd = PhaseDiagram(reactions=rxns, norm_factors=norm)
+    if norm is not None and len(rxns) % 2 == 0:
+        # the normalisation factors are a public attribute: a diagram built with other factors and handed these afterwards
+        # is the same diagram (half of the cases, decided by the generated reaction count)
+        pd = PhaseDiagram(reactions=rxns, norm_factors=np.asarray(norm, dtype=float)[::-1] * 3 + 1)
+        pd.norm_factors = norm
+        ctx.label('norm_factors-assigned-after-construction')
     nf = np.ones(len(rxns)) if norm is None else np.asarray(norm, dtype=float)
     u = case['units']
     n1, v1 = _axis_args(case['x1'], names)
